@@ -16,6 +16,12 @@
 (* ResourceManager, generate of ManagedResource) are logged from inside    *)
 (* the callback and are constrained by the abstract state.                 *)
 (*                                                                         *)
+(* A `hang` event (the recorder found calls that did not return within a    *)
+(* long grace period although nothing in the history can still release     *)
+(* them) has no action at all: every contract here promises that a call    *)
+(* returns once the calls it may wait for have returned, so a history      *)
+(* containing it is rejected at that event.                                *)
+(*                                                                         *)
 (* Many short histories are concatenated; a `reset` event re-establishes   *)
 (* the initial state of the primitive named in it.  Acceptance: the        *)
 (* high-water mark of `l` (TLC register 1, updated from the constraint     *)
@@ -99,7 +105,7 @@ SfRegister(p) ==                      \* internal
   /\ LET k == pc[p].k IN
        IF st.cur[k] = 0
          THEN /\ st' = [st EXCEPT !.n = @ + 1, !.cur[k] = st.n + 1]
-              /\ SetPc(p, [s |-> "owner", k |-> k, id |-> st.n + 1, ph |-> "reg"])
+              /\ SetPc(p, [s |-> "owner", k |-> k, id |-> st.n + 1, ph |-> "reg", pan |-> FALSE])
          ELSE /\ SetPc(p, [s |-> "wait", k |-> k, id |-> st.cur[k]])
               /\ UNCHANGED st
   /\ UNCHANGED <<kind, l>>
@@ -115,6 +121,15 @@ SfFnE ==
   /\ SetPc(P, [pc[P] EXCEPT !.ph = "ran"])
   /\ UNCHANGED kind /\ Consume
 
+\* fn panicked (logged from a deferred function inside fn, then re-raised): the execution has
+\* no result; the flight must still be unregistered and its waiters released (they see the
+\* zero result, encoded 0); the owner's call ends by re-raising the panic.
+SfFnP ==
+  /\ kind = "sf" /\ Is("fnp") /\ pc[P].s = "owner" /\ pc[P].ph = "run"
+  /\ st' = [st EXCEPT !.vals = (pc[P].id :> 0) @@ @]
+  /\ SetPc(P, [pc[P] EXCEPT !.ph = "ran", !.pan = TRUE])
+  /\ UNCHANGED kind /\ Consume
+
 SfDelete(p) ==                        \* internal
   /\ kind = "sf" /\ pc[p].s = "owner" /\ pc[p].ph = "ran"
   /\ st' = [st EXCEPT !.cur[pc[p].k] = 0]
@@ -123,9 +138,10 @@ SfDelete(p) ==                        \* internal
 
 SfRet ==
   /\ kind = "sf" /\ Is("ret")
-  /\ \/ /\ pc[P].s = "owner" /\ pc[P].ph = "del"
+  /\ \/ /\ pc[P].s = "owner" /\ pc[P].ph = "del" /\ ~pc[P].pan /\ Ev.pan = FALSE
         /\ Ev.v = st.vals[pc[P].id] /\ Ev.f = TRUE /\ Ev.x = TRUE
-     \/ /\ pc[P].s = "wait" /\ pc[P].id \in DOMAIN st.vals
+     \/ /\ pc[P].s = "owner" /\ pc[P].ph = "del" /\ pc[P].pan /\ Ev.pan = TRUE      \* re-raised
+     \/ /\ pc[P].s = "wait" /\ pc[P].id \in DOMAIN st.vals /\ Ev.pan = FALSE
         /\ Ev.v = st.vals[pc[P].id] /\ Ev.f = FALSE /\ Ev.x = FALSE
   /\ SetPc(P, Idle)
   /\ UNCHANGED <<kind, st>> /\ Consume
@@ -149,11 +165,17 @@ LcFnB ==
 LcFnE ==
   /\ kind = "lc" /\ Is("fne") /\ pc[P].s = "run" /\ st.holder[pc[P].k] = P
   /\ st' = [st EXCEPT !.holder[pc[P].k] = -1]
-  /\ SetPc(P, [s |-> "ran", v |-> Ev.v])
+  /\ SetPc(P, [s |-> "ran", v |-> Ev.v, pan |-> FALSE])
+  /\ UNCHANGED kind /\ Consume
+
+LcFnP ==                               \* fn panicked: the key must be released all the same
+  /\ kind = "lc" /\ Is("fnp") /\ pc[P].s = "run" /\ st.holder[pc[P].k] = P
+  /\ st' = [st EXCEPT !.holder[pc[P].k] = -1]
+  /\ SetPc(P, [s |-> "ran", v |-> 0, pan |-> TRUE])
   /\ UNCHANGED kind /\ Consume
 
 LcRet ==
-  /\ kind = "lc" /\ Is("ret") /\ pc[P].s = "ran" /\ Ev.v = pc[P].v
+  /\ kind = "lc" /\ Is("ret") /\ pc[P].s = "ran" /\ Ev.v = pc[P].v /\ Ev.pan = pc[P].pan
   /\ SetPc(P, Idle)
   /\ UNCHANGED <<kind, st>> /\ Consume
 
@@ -486,8 +508,8 @@ IrRet ==
 
 Logged ==
   \/ Reset
-  \/ SfInv \/ SfFnB \/ SfFnE \/ SfRet
-  \/ LcInv \/ LcFnB \/ LcFnE \/ LcRet
+  \/ SfInv \/ SfFnB \/ SfFnE \/ SfFnP \/ SfRet
+  \/ LcInv \/ LcFnB \/ LcFnE \/ LcFnP \/ LcRet
   \/ LimInv \/ LimRet
   \/ PoolGetInv \/ PoolCreate \/ PoolDestroy \/ PoolGetRet \/ PoolPutInv \/ PoolPutRet
   \/ RefInv \/ RefCleanCb \/ RefRet
